@@ -15,6 +15,7 @@ type EChapter struct {
 	DeclPos  int    // position in the spine (0: not in the spine)
 	RelPos   int    // position in the manifest (0: not in the manifest - an unlisted file)
 	ZipPos   int
+	Absent   bool // in manifest and spine as usual, but the file itself is not put into the archive
 }
 
 // Book is a whole EPUB package.
@@ -123,7 +124,9 @@ func (b *Book) Members() []Member {
 	zs := append([]EChapter{}, b.Chapters...)
 	sort.SliceStable(zs, func(i, j int) bool { return zs[i].ZipPos < zs[j].ZipPos })
 	for _, c := range zs {
-		parts = append(parts, mem(c.PartName, ChapterXML(c)))
+		if !c.Absent {
+			parts = append(parts, mem(c.PartName, ChapterXML(c)))
+		}
 	}
 	out := []Member{{Name: "mimetype", Data: []byte("application/epub+zip"), Store: true}}
 	return append(out, order(infra, parts, b.InfraFirst)...)
